@@ -2201,4 +2201,212 @@ theorem mpz_text_roundtrip (base : Int) (hb : (2 ≤ base ∧ base ≤ 62) ∨ (
         rw [hxx]; congr 1; omega
 
 
+/-! ### gmp_fprintf through the repaired `__gmp_fprintf_funs` -/
+
+theorem write_ok_or_fail {k : Nat} {s : OStream} (h : Faulty k s) (he : s.err = false) (chunk : List Nat)
+    (hne : chunk ≠ []) :
+    Faulty k (s.write chunk).1 ∧
+    (((s.write chunk).2 = chunk.length ∧ (s.write chunk).1.err = false ∧ (s.write chunk).1.pos = s.pos + chunk.length) ∨
+     ((s.write chunk).2 = 0 ∧ (s.write chunk).1.err = true)) := by
+  obtain ⟨w1, w2, w3⟩ := write_faulty h chunk
+  refine ⟨w1, ?_⟩
+  cases hE : (s.write chunk).1.err with
+  | false => left; exact ⟨w3 hE, rfl, w2⟩
+  | true =>
+    right; refine ⟨?_, rfl⟩
+    -- the error flag can only have been raised by this very write, which then accepted nothing
+    obtain ⟨hf, hpos, hfi⟩ := h
+    have hnk : ¬ k < s.pos := by intro hk; have := hpos.mpr hk; rw [he] at this; exact absurd this (by simp)
+    have hfz : s.fired = 0 := by rw [hfi]; simp [hnk]
+    have hemp : chunk.isEmpty = false := by cases chunk <;> simp_all
+    unfold OStream.write at hE ⊢
+    simp only [hemp, Bool.false_eq_true, if_false, hf] at hE ⊢
+    by_cases hit : s.fired = 0 ∧ s.pos ≤ k ∧ k < s.pos + chunk.length
+    · simp [hit]
+    · simp only [hit, if_false] at hE; rw [he] at hE; exact absurd hE (by simp)
+
+/-- outcome of one output stage: either it reported −1, or it wrote all its `n` bytes without error -/
+def StageOK (k : Nat) (s : OStream) (n : Nat) (res : OStream × Int) : Prop :=
+  Faulty k res.1 ∧ (res.2 = -1 ∨ (res.2 = (n : Int) ∧ res.1.err = false ∧ res.1.pos = s.pos + n))
+
+theorem reps_go_stage {k : Nat} (c : Nat) : ∀ (fuel i : Nat) (s : OStream), Faulty k s → s.err = false → i ≤ 256 * fuel →
+    Faulty k (fprintfReps.go true c fuel i s).1 ∧
+    ((fprintfReps.go true c fuel i s).2 = false ∨
+     ((fprintfReps.go true c fuel i s).2 = true ∧ (fprintfReps.go true c fuel i s).1.err = false ∧
+      (fprintfReps.go true c fuel i s).1.pos = s.pos + i)) := by
+  intro fuel
+  induction fuel with
+  | zero =>
+    intro i s h he hi
+    have : i = 0 := by omega
+    subst this
+    simp [fprintfReps.go, h, he]
+  | succ fuel ih =>
+    intro i s h he hi
+    unfold fprintfReps.go
+    by_cases hi0 : i = 0
+    · subst hi0; simp [h, he]
+    · simp only [hi0, if_false]
+      have hpiece : List.replicate (min i 256) c ≠ [] := by
+        intro hh; have := congrArg List.length hh; simp at this; omega
+      obtain ⟨w1, w2⟩ := write_ok_or_fail h he (List.replicate (min i 256) c) hpiece
+      rcases w2 with ⟨n1, e1, p1⟩ | ⟨n0, e0⟩
+      · have hn : (s.write (List.replicate (min i 256) c)).2 = min i 256 := by simpa using n1
+        simp only [hn, ne_eq, not_true_eq_false, and_false, if_false]
+        obtain ⟨g1, g2⟩ := ih (i - min i 256) _ w1 e1 (by omega)
+        refine ⟨g1, ?_⟩
+        rcases g2 with g | ⟨ga, gb, gc⟩
+        · left; exact g
+        · right; refine ⟨ga, gb, ?_⟩
+          rw [gc, p1]; simp
+      · have hn : (s.write (List.replicate (min i 256) c)).2 ≠ min i 256 := by rw [n0]; omega
+        simp only [hn, ne_eq, not_false_eq_true, and_self, if_true]
+        exact ⟨w1, Or.inl trivial⟩
+
+theorem reps_stage {k : Nat} {s : OStream} (h : Faulty k s) (he : s.err = false) (c reps : Nat) :
+    StageOK k s reps (fprintfReps true s c reps) := by
+  obtain ⟨g1, g2⟩ := reps_go_stage (k := k) c (reps / 256 + 1) reps s h he (by omega)
+  unfold StageOK fprintfReps
+  simp only
+  refine ⟨g1, ?_⟩
+  rcases g2 with g | ⟨ga, gb, gc⟩
+  · left; simp [g]
+  · right; simp [ga, gb, gc]
+
+theorem memory_stage {k : Nat} {s : OStream} (h : Faulty k s) (he : s.err = false) (t : List Nat) (ht : t ≠ []) :
+    StageOK k s t.length (fprintfMemory true s t) := by
+  obtain ⟨w1, w2⟩ := write_ok_or_fail h he t ht
+  unfold StageOK fprintfMemory
+  simp only
+  refine ⟨w1, ?_⟩
+  rcases w2 with ⟨n1, e1, p1⟩ | ⟨n0, e0⟩
+  · right; simp [n1, e1, p1]
+  · left
+    have : (s.write t).2 ≠ t.length := by
+      rw [n0]; intro hh; exact ht (List.eq_nil_of_length_eq_zero hh.symm)
+    simp [this]
+
+theorem format_stage {k : Nat} {s : OStream} (h : Faulty k s) (he : s.err = false) (t : List Nat) (ht : t ≠ []) :
+    StageOK k s t.length (fprintfFormat s t) := by
+  obtain ⟨w1, w2⟩ := write_ok_or_fail h he t ht
+  unfold StageOK fprintfFormat
+  simp only
+  refine ⟨w1, ?_⟩
+  rcases w2 with ⟨n1, e1, p1⟩ | ⟨n0, e0⟩
+  · right; simp [n1, e1, p1]
+  · left
+    have : (s.write t).2 ≠ t.length := by
+      rw [n0]; intro hh; exact ht (List.eq_nil_of_length_eq_zero hh.symm)
+    simp [this]
+
+theorem skip_stage {k : Nat} {s : OStream} (h : Faulty k s) (he : s.err = false) : StageOK k s 0 (s, (0 : Int)) :=
+  ⟨h, Or.inr ⟨rfl, he, rfl⟩⟩
+
+/-- the repaired `gmp_fprintf` path reports −1 for EVERY position at which the write fails -/
+theorem gmp_fprintf_fault (k : Nat) (pre : List Nat) (width base : Nat) (hb : 2 ≤ base) (x : Int) (post : List Nat)
+    (hk : k < (fprintfText pre width base x post).length) :
+    (gmpFprintfModel true { failAt := some k } pre width base x post).1 = -1 := by
+  have hdigs : (if x = 0 then [48] else magText base base x.natAbs) ≠ [] := by
+    split
+    · simp
+    · rename_i hx
+      unfold magText
+      have := (natDigits_spec base hb x.natAbs).2.2.1 (by omega)
+      intro hh; exact this.1 (List.map_eq_nil_iff.mp hh)
+  unfold gmpFprintfModel
+  try simp only
+  generalize hdg : (if x = 0 then [48] else magText base base x.natAbs) = digs at hdigs ⊢
+  have htot : (fprintfText pre width base x post).length
+      = pre.length + (width - ((if x < 0 then 1 else 0) + digs.length)) + (if x < 0 then 1 else 0) + digs.length + post.length := by
+    unfold fprintfText; simp only [hdg]; split <;> simp <;> omega
+  -- stage 1: text before the conversion
+  have h0 := faulty_init k
+  have st1 : StageOK k { failAt := some k } pre.length
+      (if pre.isEmpty then (({ failAt := some k } : OStream), (0 : Int)) else fprintfFormat { failAt := some k } pre) := by
+    by_cases hp : pre.isEmpty
+    · have : pre = [] := by simpa using hp
+      subst this; simpa using skip_stage h0 rfl
+    · simp only [hp, Bool.false_eq_true, if_false]
+      exact format_stage h0 rfl pre (by intro h; simp [h] at hp)
+  generalize hs1 : (if pre.isEmpty then (({ failAt := some k } : OStream), (0 : Int)) else fprintfFormat { failAt := some k } pre) = q1 at st1 ⊢
+  obtain ⟨s1, r1⟩ := q1
+  obtain ⟨f1, o1⟩ := st1
+  try simp only
+  rcases o1 with o1 | ⟨v1, e1, p1⟩
+  · (try simp only at o1); simp [o1]
+  try simp only at v1 e1 p1 f1
+  have hr1 : ¬ r1 = -1 := by rw [v1]; omega
+  simp only [hr1, if_false]
+  -- stage 2: padding
+  have st2 : StageOK k s1 (width - ((if x < 0 then 1 else 0) + digs.length))
+      (if ((width : Int) - ((digs.length : Int) + (if x < 0 then 1 else 0)) > 0) then
+        fprintfReps true s1 32 ((width : Int) - ((digs.length : Int) + (if x < 0 then 1 else 0))).toNat else (s1, 0)) := by
+    by_cases hj : ((width : Int) - ((digs.length : Int) + (if x < 0 then 1 else 0)) > 0)
+    · simp only [hj, if_true]
+      have : ((width : Int) - ((digs.length : Int) + (if x < 0 then 1 else 0))).toNat
+          = width - ((if x < 0 then 1 else 0) + digs.length) := by
+        by_cases hn : x < 0 <;> simp only [hn, if_true, if_false] at hj ⊢ <;> omega
+      rw [this]; exact reps_stage f1 e1 32 _
+    · simp only [hj, if_false]
+      have : width - ((if x < 0 then 1 else 0) + digs.length) = 0 := by
+        by_cases hn : x < 0 <;> simp only [hn, if_true, if_false] at hj ⊢ <;> omega
+      rw [this]; exact skip_stage f1 e1
+  generalize hs2 : (if ((width : Int) - ((digs.length : Int) + (if x < 0 then 1 else 0)) > 0) then
+        fprintfReps true s1 32 ((width : Int) - ((digs.length : Int) + (if x < 0 then 1 else 0))).toNat else (s1, 0)) = q2 at st2 ⊢
+  obtain ⟨s2, r2⟩ := q2
+  obtain ⟨f2, o2⟩ := st2
+  try simp only
+  rcases o2 with o2 | ⟨v2, e2, p2⟩
+  · (try simp only at o2); simp [o2]
+  try simp only at v2 e2 p2 f2
+  have hr2 : ¬ r2 = -1 := by rw [v2]; omega
+  simp only [hr2, if_false]
+  -- stage 3: sign
+  have st3 : StageOK k s2 (if x < 0 then 1 else 0)
+      (if (if x < 0 then (1 : Int) else 0) ≠ 0 then fprintfReps true s2 45 1 else (s2, 0)) := by
+    by_cases hn : x < 0
+    · simp only [hn, if_true, ne_eq, one_ne_zero, not_false_eq_true]; exact reps_stage f2 e2 45 1
+    · simp only [hn, if_false, ne_eq, not_true_eq_false]; exact skip_stage f2 e2
+  generalize hs3 : (if (if x < 0 then (1 : Int) else 0) ≠ 0 then fprintfReps true s2 45 1 else (s2, 0)) = q3 at st3 ⊢
+  obtain ⟨s3, r3⟩ := q3
+  obtain ⟨f3, o3⟩ := st3
+  try simp only
+  rcases o3 with o3 | ⟨v3, e3, p3⟩
+  · (try simp only at o3); simp [o3]
+  try simp only at v3 e3 p3 f3
+  have hr3 : ¬ r3 = -1 := by rw [v3]; split <;> omega
+  simp only [hr3, if_false]
+  -- stage 4: digits
+  have st4 := memory_stage f3 e3 digs hdigs
+  generalize hs4 : fprintfMemory true s3 digs = q4 at st4 ⊢
+  obtain ⟨s4, r4⟩ := q4
+  obtain ⟨f4, o4⟩ := st4
+  try simp only
+  rcases o4 with o4 | ⟨v4, e4, p4⟩
+  · (try simp only at o4); simp [o4]
+  try simp only at v4 e4 p4 f4
+  have hr4 : ¬ r4 = -1 := by rw [v4]; omega
+  simp only [hr4, if_false]
+  -- stage 5: text after the conversion
+  have st5 : StageOK k s4 post.length (if post.isEmpty then (s4, (0 : Int)) else fprintfFormat s4 post) := by
+    by_cases hp : post.isEmpty
+    · have : post = [] := by simpa using hp
+      subst this; simpa using skip_stage f4 e4
+    · simp only [hp, Bool.false_eq_true, if_false]
+      exact format_stage f4 e4 post (by intro h; simp [h] at hp)
+  generalize hs5 : (if post.isEmpty then (s4, (0 : Int)) else fprintfFormat s4 post) = q5 at st5 ⊢
+  obtain ⟨s5, r5⟩ := q5
+  obtain ⟨f5, o5⟩ := st5
+  try simp only
+  rcases o5 with o5 | ⟨v5, e5, p5⟩
+  · (try simp only at o5); simp [o5]
+  -- everything was written without an error: the fault position lies beyond the output
+  exfalso
+  try simp only at e5 p5 f5
+  have hpos : s5.pos = (fprintfText pre width base x post).length := by
+    rw [htot, p5, p4, p3, p2, p1]; omega
+  have := f5.2.1.mpr (by rw [hpos]; exact hk)
+  rw [e5] at this; exact absurd this (by simp)
+
+
 end Mpir.Io
